@@ -100,10 +100,21 @@ def spec_variants():
     for k in ("types", "users_bidirectional", "users_one_way", "mark_left", "mark_right"):
         l3.pop(k, None)
     V["defaults"] = sp
+    # one traffic light per direction value on the incoming lanelet of the intersection, whose incoming element has left and straight successors
+    # (the renderer colours the successors the light is valid for) + a goal made of several separate regions without lanelet references
+    sp = speclib.base()
+    dirs = ["RIGHT", "STRAIGHT", "LEFT", "LEFT_STRAIGHT", "STRAIGHT_RIGHT", "LEFT_RIGHT", "ALL"]
+    for i, d in enumerate(dirs):
+        sp["lights"].append({"id": 12 + i, "position": [19.0 + 0.25 * i, 5.0], "cycle": [("GREEN", 2), ("RED", 2), ("RED_YELLOW", 1)], "offset": i % 3, "active": True, "direction": d})
+    speclib.find(sp, "lanelets", 1)["lights"] = [12 + i for i in range(len(dirs))]
+    speclib.find(sp, "intersections", 20)["incomings"][0].update(right=[], straight=[2], left=[3])
+    sp["pps"][0]["goal"]["lanelets"] = {}
+    sp["pps"][0]["goal"]["states"][1]["attrs"]["position"] = ["group", [["rect", 2.0, 2.0, 30.0, 2.0, 0.0], ["circle", 1.5, 35.0, 2.5], ["poly", [[38.0, 1.0], [40.0, 1.0], [40.0, 4.0], [38.0, 4.0]]]]]
+    V["directed-lights+group-goal"] = sp
     return V
 
 
-STARTS = ["base", "goal-lanelets-unsorted", "custom-pm-trajectory", "pm-trajectory", "uncertain-states", "goal-lanelets-all", "defaults", "read-xml:base", "read-pb:base", "read-pb:custom-pm-trajectory",
+STARTS = ["base", "directed-lights+group-goal", "goal-lanelets-unsorted", "custom-pm-trajectory", "pm-trajectory", "uncertain-states", "goal-lanelets-all", "defaults", "read-xml:base", "read-pb:base", "read-pb:custom-pm-trajectory",
           "file:test_reading_all.xml", "file:test_reading_intersection_traffic_sign.xml", "file:test_reading_pm_state.xml", "file:USA_Lanker-1_1_T-1.xml"]
 
 
@@ -132,6 +143,19 @@ def _ks(t, x, y, o, v):
     return KSState(time_step=t, position=np.array([x, y]), orientation=o, velocity=v, steering_angle=0.0)
 
 
+def _inner_points(shape):
+    """one point strictly inside every member region of a shape (in member order)"""
+    from commonroad.geometry.shape import ShapeGroup, Polygon
+    if shape is None or not hasattr(shape, "contains_point"):
+        return []
+    if isinstance(shape, ShapeGroup):
+        return [p for m in shape.shapes for p in _inner_points(m)]
+    if isinstance(shape, Polygon):
+        c = shape.shapely_object.representative_point()
+        return [[float(c.x), float(c.y)]]
+    return [[float(shape.center[0]), float(shape.center[1])]]
+
+
 def ops():
     import numpy as np
     O = {}
@@ -139,7 +163,11 @@ def ops():
     def occupancies(sc, pps):
         for o in sc.obstacles:
             for t in range(0, 5):
-                o.occupancy_at_time(t)
+                occ = o.occupancy_at_time(t)
+                if occ is not None:
+                    pts_ = _inner_points(occ.shape)
+                    for pt in pts_[::-1] + pts_:
+                        occ.shape.contains_point(np.array(pt))
     O["obstacle.occupancy_at_time"] = occupancies
 
     def states(sc, pps):
@@ -226,6 +254,20 @@ def ops():
                 p.goal_reached(Trajectory(5, [_ks(5, 37.0, 2.5, 0.1, 5.0), _ks(6, 38.0, 2.5, 0.1, 5.0)]))
             except ValueError:
                 pass
+            # states placed inside every region the goal itself names (each member of a group, last member first), at a time inside the goal's interval
+            for g in p.goal.state_list:
+                ts = g.time_step.start if hasattr(g.time_step, "start") else g.time_step
+                pts_ = _inner_points(getattr(g, "position", None))
+                for pt in pts_[::-1] + pts_:        # last member first, then in member order (a self-organising container ends up permuted)
+                    for st in (_ks(int(ts), float(pt[0]), float(pt[1]), 0.0, 5.0), PMState(time_step=int(ts), position=np.array(pt), velocity=4.0, velocity_y=0.5)):
+                        try:
+                            p.goal.is_reached(st)
+                        except ValueError:
+                            pass
+                    try:
+                        p.goal_reached(Trajectory(int(ts) - 1, [_ks(int(ts) - 1, float(pt[0]) - 0.5, float(pt[1]), 0.0, 5.0), _ks(int(ts), float(pt[0]), float(pt[1]), 0.0, 5.0)]))
+                    except ValueError:
+                        pass
     O["goal.is_reached+goal_reached"] = goal_checks
 
     def equality(sc, pps):
